@@ -565,6 +565,13 @@ func sha(b []byte) string { h := sha256.Sum256(b); return fmt.Sprintf("%x", h[:6
 func (w *world) teardown() {
 	w.wg.Wait()
 	w.nw.HealAll()
+	// connections into a black hole end when the operating system's TCP
+	// keep-alive gives up (minutes); model that as a reset before draining
+	for _, n := range w.nodes {
+		if n.killed {
+			w.nw.Crash(n.host, true)
+		}
+	}
 	for _, a := range w.apps {
 		a.shutdown()
 	}
